@@ -378,8 +378,16 @@ func (s *StateMachine) SlashValidator(validator *Validator, chainId, percent uin
 	if err = s.SubFromStakedSupply(slashAmount); err != nil {
 		return err
 	}
-	// update the committees based on the new stake amount
-	if err = s.UpdateCommittees(addr, validator, stakeAfterSlash, newCommittees); err != nil {
+	// update the committees (or delegations) based on the new stake amount
+	if validator.Delegate {
+		// a delegate's stake is also tracked in the 'delegated only' tallies
+		if err = s.SubFromDelegateSupply(slashAmount); err != nil {
+			return err
+		}
+		if err = s.UpdateDelegations(addr, validator, stakeAfterSlash, newCommittees); err != nil {
+			return err
+		}
+	} else if err = s.UpdateCommittees(addr, validator, stakeAfterSlash, newCommittees); err != nil {
 		return err
 	}
 	// set the committees in the validator structure
